@@ -100,7 +100,7 @@ def run(ctx):
         ctx.case((r.desc, str(C.jsonable_hist(r.hist))), nontrivial=C.nontrivial_history(r),
                  sample=dict(start=r.desc, ops=[s["op"][0] + ":" + s["real"] for s in r.steps]), tags=C.history_tags(r))
         C.correspondence(ctx, r)
-        judge(ctx, r)
+        C.judge_and_shrink(ctx, r, judge)
 
 
 def replay(path):
